@@ -612,7 +612,8 @@ class ManifestContext:
                 if tm < earliest_available:
                     continue
                 drop_delta = tm - availabilityStartTime
-                drop_seg = int(scale_timedelta(
+                # the number of the segment that contains this time
+                drop_seg = representation.start_number + int(scale_timedelta(
                     drop_delta, representation.timescale,
                     representation.segment_duration))
             if code is None:
